@@ -464,7 +464,7 @@ func (p *sessionPort) exec(f []string) []string {
 	}
 	if p.client == nil {
 		switch f[0] {
-		case "rs", "readall", "pal", "peo", "call", "quit", "close", "disconnect", "counters", "txn", "backoff":
+		case "rs", "readall", "pal", "peo", "call", "quit", "close", "disconnect", "counters", "txn", "backoff", "sig":
 			return []string{"noclient"}
 		}
 	}
@@ -842,6 +842,16 @@ func (p *sessionPort) exec(f []string) []string {
 			}
 		}
 		return []string{fmt.Sprintf("backoff %dms", idle.Milliseconds())}
+	case "sig": // the Online and Offline signals as the application sees them right now: released (1) or blocked (0)
+		released := func(ch <-chan struct{}) int {
+			select {
+			case <-ch:
+				return 1
+			default:
+				return 0
+			}
+		}
+		return []string{fmt.Sprintf("sig online=%d offline=%d", released(p.client.Online()), released(p.client.Offline()))}
 	case "counters":
 		if p.atGate() {
 			// the sequence tokens may be held by the stalled writer (resend): the probe would wait for it
